@@ -132,10 +132,6 @@ fn create_next_state<C: ContentAddrStore>(
                     .insert_coin(coinid, coin_data.clone(), is_tip_906);
             }
         }
-        for coinid in tx.inputs.iter() {
-            next_state.coins.remove_coin(*coinid, is_tip_906);
-        }
-
         // fees
         let min_fee = tx.base_fee(next_state.fee_multiplier, 0, |c| {
             covenant_weight_from_bytes(c)
@@ -148,6 +144,13 @@ fn create_next_state<C: ContentAddrStore>(
             next_state.fee_pool.0 = next_state.fee_pool.0.saturating_add(min_fee.0);
         }
         next_state.transactions.insert(tx.clone());
+    }
+    // Spent coins are removed only once every output of the batch has been inserted. Removing them transaction by
+    // transaction left an output unspent whenever its spender came earlier in the batch than its creator.
+    for tx in transactions {
+        for coinid in tx.inputs.iter() {
+            next_state.coins.remove_coin(*coinid, is_tip_906);
+        }
     }
     Ok(next_state)
 }
